@@ -205,8 +205,10 @@ def gen_params_case(rng):
     kps = [[rng.uniform(0, W - 0.01), rng.uniform(0, H - 0.01), rng.uniform(0, D - 0.01), rng.uniform(0, 6.2), rng.uniform(0.5, 2)] for _ in range(8)]
     x1, y1, z1 = rng.randint(0, 3), rng.randint(0, 3), rng.randint(0, 3)
     win = [x1, y1, z1, rng.randint(W - 4, W), rng.randint(H - 4, H), rng.randint(D - 4, D)]
+    # idle: a record in which no transform fired -- the replay must still do what the recorded call did around the
+    # transforms (annotation filtering, format conversion, label fields)
     return {'shape': shape, 'bbox_params': bp, 'keypoint_params': kp, 'boxes': boxes, 'kps': kps, 'window': win,
-            'seed': rng.randint(0, 10 ** 6)}
+            'seed': rng.randint(0, 10 ** 6), 'idle': rng.random() < 0.3}
 
 
 def check_params(case, viol):
@@ -228,6 +230,8 @@ def check_params(case, viol):
                 keypoints=[fmt_kp(k) for k in case['kps']], ids=['k%d' % i for i in range(len(case['kps']))],
                 image2=(img * 2).astype('int32'), mask2=img.copy())
     tf = [A.Crop(x_min=w[0], y_min=w[1], z_min=w[2], x_max=w[3], y_max=w[4], z_max=w[5], p=1.0), A.HorizontalFlip(p=0.5)]
+    if case.get('idle'):
+        tf = [A.OneOf([A.HorizontalFlip(p=1.0), A.Transpose(p=1.0)], p=0.0), A.SliceFlip(p=0.0)]
     try:
         pipe = A.ReplayCompose(tf, bbox_params=A.BboxParams(**bp), keypoint_params=A.KeypointParams(**kp),
                                additional_targets={'image2': 'image', 'mask2': 'mask'})
